@@ -15,7 +15,7 @@
  *                                    returns OK (1) / FAIL (0) if it is called
  *     result: "<input> > <out>,<out>..." joined by " | "
  *
- * exe K <real|rfc> P <prng seed> M <cmid0> <smid0> T <tok0: first token is tok0+1; -1: empty token> A <async delay ms> E <default delay ms> N <server nstart>
+ * exe K <real|rfc> P <prng seed> M <cmid0> <smid0> T <tok0: first token is tok0+1; -1: empty token> G <keepalive seconds, 0 = off> A <async delay ms> E <default delay ms> N <server nstart>
  *     Q <sty>:<ok>:<think ms> ...   F <fate> ...
  *     discrete-event run of whole exchanges: the application sends the requests of Q one after
  *     the other (the next one <think> ms after the previous one concluded: handler call or NACK
@@ -213,10 +213,28 @@ static void on_nack(coap_session_t *s, const coap_pdu_t *sent, const coap_nack_r
 /* a (broken) library that sends without end must not take the machine down: the case is given
  * up, the process exits with status 3 and the check reports the crash */
 #define RUNAWAY_DGRAMS 200000
+/* keepalive (exe G <seconds>): the client's pings (empty CON) and the peer's RST replies are not
+ * inputs / outputs of the model; they travel at once and take no slot of the fate table */
+#define MAXPING 1024
+static int ping_mids[MAXPING], npings = 0, npongs = 0;
+static int is_ping_dgram(const vn_dgram_t *d) {
+  return d->len == 4 && (d->data[0] & 0x30) == 0x00 && d->data[1] == 0 && d->ctx == cli && cli &&
+         d->session == cs;
+}
+static int is_pong_bytes(const uint8_t *b, size_t len) {
+  if (len != 4 || (b[0] & 0x30) != 0x30 || b[1] != 0) return 0;
+  int mid = (b[2] << 8) | b[3];
+  for (int i = 0; i < npings; i++) if (ping_mids[i] == mid) return 1;
+  return 0;
+}
 static void hook_send(size_t idx) {
   if (vn_nout > RUNAWAY_DGRAMS) {
     fputs("runaway: more than 200000 datagrams in one case\n", stderr);
     _exit(3);
+  }
+  if (is_ping_dgram(&vn_out[idx])) {
+    if (npings < MAXPING) ping_mids[npings++] = (vn_out[idx].data[2] << 8) | vn_out[idx].data[3];
+    return;
   }
   if (vn_out[idx].ctx == cli && cli && vn_out[idx].session == cs) {
     char b[160];
@@ -601,6 +619,7 @@ static void rfc_separate(int sty, unsigned long long tok) {
 static void rfc_rx(const uint8_t *d, size_t len) {
   dg_t g = dg_parse(d, len);
   if (!g.ok) return;
+  if (g.code == 0 && g.type == 0) { rfc_send("rs", g.mid, 0); return; }   /* CoAP ping -> RST */
   if (g.code == 0 && (g.type == 2 || g.type == 3)) {
     for (int i = 0; i < rfc_ncon; i++) if (rfc_con[i].mid == g.mid) rfc_con[i].done = 1;
     return;
@@ -667,10 +686,17 @@ static size_t fated = 0;       /* log entries that already have their fate */
 static void pend_add(coap_tick_t t, size_t idx) {
   if (npend < MAXPEND) { pend[npend].t = t; pend[npend].idx = idx; npend++; }
 }
+static size_t fate_i = 0;      /* next slot of the fate table */
 static void assign_fates(void) {
   for (; fated < vn_nout; fated++) {
-    if (fated < (size_t)nfates) {
-      const char *f = fates[fated];
+    if (is_ping_dgram(&vn_out[fated]) ||
+        (vn_out[fated].ctx != cli && is_pong_bytes(vn_out[fated].data, vn_out[fated].len))) {
+      pend_add(vn_out[fated].t, fated);
+      continue;
+    }
+    size_t slot = fate_i++;
+    if (slot < (size_t)nfates) {
+      const char *f = fates[slot];
       if (f[0] == 'x') continue;
       char tmp[128];
       strncpy(tmp, f, sizeof(tmp) - 1); tmp[sizeof(tmp) - 1] = 0;
@@ -710,7 +736,13 @@ static void deliver(size_t idx) {
   size_t len = vn_out[idx].len;
   uint8_t *copy = (uint8_t *)malloc(len ? len : 1);
   memcpy(copy, vn_out[idx].data, len);
-  if (to_client) {
+  if (to_client && is_pong_bytes(copy, len)) {
+    npongs++;
+    recording = 0;
+    vn_inject_session(cli, cs, copy, len);
+  } else if (!to_client && is_ping_dgram(&vn_out[idx])) {
+    if (kind_real) vn_route(idx); else rfc_rx(copy, len);
+  } else if (to_client) {
     char in[160];
     dg_t g = dg_parse(copy, len);
     dg_as_input(in, sizeof(in), copy, len, verdict_for(g.tok));
@@ -731,7 +763,7 @@ static void deliver(size_t idx) {
 }
 
 static void do_exe(void) {
-  int cmid0 = 100;
+  int cmid0 = 100, keepalive = 0;
   long long ctok0 = 0;
   uint64_t prng_seed = 12345;
   int nq = 0, qs[MAXREQ], qok[MAXREQ];
@@ -750,6 +782,7 @@ static void do_exe(void) {
     else if (!strcmp(a, "N") && i + 1 < vntok) { srv_nstart = atoi(vtok[i + 1]); i += 2; }
     else if (!strcmp(a, "H") && i + 1 < vntok) { app_method = atoi(vtok[i + 1]); i += 2; }
     else if (!strcmp(a, "T") && i + 1 < vntok) { ctok0 = atoll(vtok[i + 1]); i += 2; }
+    else if (!strcmp(a, "G") && i + 1 < vntok) { keepalive = atoi(vtok[i + 1]); i += 2; }
     else if (!strcmp(a, "Q")) {
       i++;
       while (i < vntok && vtok[i][0] >= '0' && vtok[i][0] <= '9' && nq < MAXREQ) {
@@ -789,11 +822,12 @@ static void do_exe(void) {
     coap_address_copy(&rfc_addr, &server);
   }
   client_setup(&server, -1, cmid0, ctok0);
+  if (keepalive > 0) coap_context_set_keepalive(cli, (unsigned int)keepalive);
   coap_address_copy(&cli_addr, &cs->addr_info.local);
   use_tok_verdict = 1;
   sb_reset(&steps); sb_reset(&times); nsteps = 0;
   sb_reset(&srvsteps); nsrvsteps = 0; smid_first = -1;
-  npend = 0; fated = 0;
+  npend = 0; fated = 0; fate_i = 0; npings = 0; npongs = 0;
   for (int k = 0; k < MAXLOG; k++) sb_reset(&deliv[k]);
 
   int qi = 0, guard = 0, quiet = 0;
@@ -863,6 +897,11 @@ static void do_exe(void) {
       if (cli->sendqueue == NULL && (!next || t < next)) next = t;
     }
     if (!next) { quiet = 1; break; }
+    if (keepalive > 0 && cli->sendqueue == NULL && npend == 0 && !(app_out < 0 && qi < nq) &&
+        (!ws || ws > 100000) && (kind_real ? trig_next_due() == 0 : rfc_next_due() == 0)) {
+      quiet = 1;                 /* nothing but the next keepalive ping is left */
+      break;
+    }
     if (next < vn_now) next = vn_now;
     if (next > vn_now + 100000) { quiet = 2; break; }   /* only idle-session timeouts remain */
     vn_now = next;
@@ -875,8 +914,8 @@ static void do_exe(void) {
     printf("%s%zu/%llu/%c/%s/%s", k ? " " : "", k, (unsigned long long)vn_out[k].t,
            from_client ? 'c' : 's', b, (k < MAXLOG && deliv[k].n) ? deliv[k].s : "x");
   }
-  printf(" || end=%s now=%llu sent=%d of=%d reqs=", quiet == 1 ? "quiet" : quiet == 2 ? "idle" : "limit",
-         (unsigned long long)vn_now, qi, nq);
+  printf(" || end=%s now=%llu sent=%d of=%d pings=%d pongs=%d reqs=", quiet == 1 ? "quiet" : quiet == 2 ? "idle" : "limit",
+         (unsigned long long)vn_now, qi, nq, npings, npongs);
   for (int k = 0; k < nreqs; k++)
     printf("%s%llu:%d:%d:%d", k ? "," : "", reqs[k].tok, reqs[k].mid, reqs[k].nresp, reqs[k].nnack);
   printf(" || srv=%lld %s", smid_first, (srvsteps.s && nsrvsteps) ? srvsteps.s : "");
